@@ -298,6 +298,8 @@ pub fn minimise(rf: &ReplayFile, execs: u64, secs: f64) -> (ReplayFile, u64) {
         stale_sites: st.stale.clone(),
         markers: st.markers.clone(),
         rng_seed: None,
+        worker_iter: rf.worker_iter,
+        replay_with_history: false,
         case: st.case.clone(),
         picks,
     };
